@@ -985,3 +985,34 @@ UNDECIDED += [
     ('u13-rtype-number-own-construction', ['C13'], [(A, _RTYPE_RET, _RTYPE_HEAD + "        if is_int(rs2):\n            return RTypeInstruction(line, name, rd, rs1, rs2)\n"
                                                      "        return RTypeInstruction(line, name, rd, rs1, rs2)\n")]),
 ]
+
+# ---- round 6 ----
+_BAKE = "        imm = eval_immediate(item, position, env)\n"
+_FILTER_NONE = "    items = [i for i in items if i is not None]\n"
+_CNOP = "        'c.nop': [\n            NameEquals('addi'),\n            RegEquals('rd', 0),\n            RegEquals('rs1', 0),\n            ImmEquals(0),\n        ],\n"
+_RL_OLD = ("def resolve_labels(items, labels):\n    position = 0\n    new_items = []\n    for item in items:\n        if not isinstance(item, Label):\n"
+           "            position += item.size()\n            new_items.append(item)\n            continue\n\n        labels[item.name] = position\n\n    return new_items\n")
+_RL_CURSOR = ("class LayoutCursor:\n    def __init__(self{init_params}):\n        self.position = {start}\n\n    def advance(self, item):\n        self.position += item.size()\n\n\n"
+              "def resolve_labels(items, labels):\n    cursor = LayoutCursor({init_args})\n    new_items = []\n    for item in items:\n        if not isinstance(item, Label):\n"
+              "            cursor.advance(item)\n            new_items.append(item)\n            continue\n\n        labels[item.name] = cursor.position\n\n    return new_items\n")
+_RL_GEN = ("def iter_positions(items):\n    position = 0\n    for item in items:\n        yield position, item\n        position += {adv}\n\n\n"
+           "def resolve_labels(items, labels):\n    new_items = []\n    for position, item in iter_positions(items):\n        if not isinstance(item, Label):\n"
+           "            new_items.append(item)\n            continue\n\n        labels[item.name] = position\n\n    return new_items\n")
+BREAKING += [
+    ('c6-bake-memo', ['C03', 'C07', 'C08'], [(A, "def resolve_immediates(items, constants, labels):\n", "def resolve_immediates(items, constants, labels):\n    cache = {}\n"),
+                                             (A, _BAKE, "        key = str(item.imm)\n        if isinstance(item.imm, Offset) or key not in cache:\n"
+                                                        "            cache[key] = eval_immediate(item, position, env)\n        imm = cache[key]\n")]),
+    ('c6-items-pop-trailing-align', ['C09'], [(A, _FILTER_NONE, _FILTER_NONE + "    while items and isinstance(items[-1], Align):\n        items.pop()\n")]),
+    ('c6-items-del-first', ['C09'], [(A, _FILTER_NONE, _FILTER_NONE + "    if items and isinstance(items[0], Align):\n        del items[0]\n")]),
+    ('c6-cnop-any-immediate', ['C06', 'C04'], [(A, _CNOP, _CNOP.replace("            ImmEquals(0),\n", ""))]),
+    ('c6-env-set-union', ['C16'], [(A, "        env = ChainMap(constants, labels)\n        imm = eval_immediate(item, position, env)\n",
+                                    "        env = dict(labels.items() | constants.items())\n        imm = eval_immediate(item, position, env)\n")]),
+    ('c6-cursor-starts-at-4', ['C03', 'C08'], [(A, _RL_OLD, _RL_CURSOR.format(init_params='', start='4', init_args=''))]),
+    ('c6-generator-positions-fixed-step', ['C03', 'C08'], [(A, _RL_OLD, _RL_GEN.format(adv='4'))]),
+]
+PRESERVING += [
+    ('p6-cursor-object', None, [(A, _RL_OLD, _RL_CURSOR.format(init_params='', start='0', init_args=''))]),
+    ('p6-cursor-object-start-arg', ['C03', 'C08', 'C09', 'C20'], [(A, _RL_OLD, _RL_CURSOR.format(init_params=', start=0', start='start', init_args=''))]),
+    ('p6-generator-positions', None, [(A, _RL_OLD, _RL_GEN.format(adv='item.size()'))]),
+    ('p6-while-unrelated', ['C03', 'C09', 'C16', 'C17'], [(A, _FILTER_NONE, _FILTER_NONE + "    budget = len(items)\n    while budget > 1000000:\n        log.debug('large program')\n        budget -= 1000000\n")]),
+]
